@@ -4,3 +4,5 @@ import CardVerif.Props.C01
 #print axioms CardVerif.C01.reachable_wf
 #print axioms CardVerif.C01.completion
 #print axioms CardVerif.C01.in_progress_no_payouts
+#print axioms CardVerif.C01.completion_B
+#print axioms CardVerif.C01.completion_f53
